@@ -1,13 +1,43 @@
-/* partdrv - evaluates the real partition arithmetic (lp_global_init, partition_start, lid_to_nid,
- * lid_to_rid) for every (LPs, ranks, threads) triple up to a bound and every rank.  C14 */
+/* partdrv - runs the real LP set-up (lp_global_init, lp_init, lp_fini) for every (LPs, ranks, threads) triple up to a
+ * bound, every rank and every worker of the rank, and records what can be observed from outside: which worker
+ * dispatches LP_INIT / LP_FINI of which LP, the range the rank claims, and where the routing functions
+ * (lid_to_nid, lid_to_rid - the ones ScheduleNewEvent and msg_queue_insert use) send the events of each LP.  C14 */
 #define _GNU_SOURCE
-#include <lp/lp.c>
+#include <core/core.h>
+#include <datatypes/msg_queue.h>
+#include <gvt/termination.h>
+#include <lp/lp.h>
+#include <mm/auto_ckpt.h>
+#include <mm/msg_allocator.h>
 
 #include <stdio.h>
 #include <stdlib.h>
+#include <string.h>
 
 unsigned verif_batch(unsigned d) { return d; }
 void verif_hook(unsigned p, uint64_t a, uint64_t b, uint64_t c, uint64_t d) { (void)p, (void)a, (void)b, (void)c, (void)d; }
+
+#define MAXL 4096
+static int init_by[MAXL], fini_by[MAXL], init_cnt[MAXL], fini_cnt[MAXL];
+
+static void dispatcher(lp_id_t me, simtime_t now, unsigned t, const void *c, unsigned s, void *st)
+{
+	(void)now, (void)c, (void)s, (void)st;
+	if(me >= MAXL)
+		return;
+	if(t == LP_INIT) {
+		init_by[me] = (int)rid;
+		++init_cnt[me];
+	} else if(t == LP_FINI) {
+		fini_by[me] = (int)rid;
+		++fini_cnt[me];
+	}
+}
+static bool committed(lp_id_t me, const void *s)
+{
+	(void)me, (void)s;
+	return false;
+}
 
 int main(int argc, char **argv)
 {
@@ -17,7 +47,10 @@ int main(int argc, char **argv)
 	int maxL = atoi(argv[2]), maxN = atoi(argv[3]), maxT = atoi(argv[4]);
 	int stride = argc > 5 ? atoi(argv[5]) : 1, off = argc > 6 ? atoi(argv[6]) : 0, idx = 0;
 	global_config.log_level = LOG_SILENT;
-	for(int L = 1; L <= maxL; ++L)
+	global_config.dispatcher = dispatcher;
+	global_config.committed = committed;
+	global_config.termination_time = 10;
+	for(int L = 1; L <= maxL && L < MAXL; ++L)
 		for(int N = 1; N <= maxN; ++N)
 			for(int T = 1; T <= maxT; ++T) {
 				if((idx++ % stride) != off)
@@ -27,21 +60,47 @@ int main(int argc, char **argv)
 					global_config.n_threads = (unsigned)T;
 					n_nodes = N;
 					nid = k;
-					lp_global_init(); /* the real one: sets lid_node_first, n_lps_node, clamps n_threads */
+					lp_global_init(); /* sets lid_node_first, n_lps_node, clamps n_threads */
+					msg_queue_global_init();
+					termination_global_init();
 					unsigned t = global_config.n_threads;
-					fprintf(out, "{\"e\":\"Part\",\"L\":%d,\"N\":%d,\"T\":%d,\"nid\":%d,\"first\":%d,\"cnt\":%d,\"thr\":%u,\"tf\":[", L, N, T, k,
-					    (int)lid_node_first, (int)n_lps_node, t);
-					for(unsigned r = 0; r < t; ++r) {
-						rid = r; /* same expressions as lp_init() */
-						uint64_t f = partition_start(rid, global_config.n_threads, lid_to_rid, lid_node_first, n_lps_node);
-						fprintf(out, "%s%d", r ? "," : "", (int)f);
-					}
-					fprintf(out, "],\"te\":[");
-					for(unsigned r = 0; r < t; ++r) {
+					for(int i = 0; i < L; ++i)
+						init_by[i] = fini_by[i] = -1, init_cnt[i] = fini_cnt[i] = 0;
+					uint64_t tf[64], te[64];
+					/* one OS thread plays every worker of the rank in turn, as worker_thread_init / _fini do */
+					for(unsigned r = 0; r < t && r < 64; ++r) {
 						rid = r;
-						uint64_t e = partition_start(rid + 1, global_config.n_threads, lid_to_rid, lid_node_first, n_lps_node);
-						fprintf(out, "%s%d", r ? "," : "", (int)e);
+						auto_ckpt_init();
+						msg_allocator_init();
+						msg_queue_init();
+						lp_init();
+						tf[r] = lid_thread_first;
+						te[r] = lid_thread_end;
+						lp_fini();
+						msg_queue_fini();
+						msg_allocator_fini();
 					}
+					/* what an outside observer saw: per worker the LPs it initialised; they must be exactly the claimed
+					 * range, each LP once, finalised by the same worker */
+					int ok = 1;
+					for(unsigned r = 0; r < t && r < 64; ++r)
+						for(int i = 0; i < L; ++i) {
+							bool in = (uint64_t)i >= tf[r] && (uint64_t)i < te[r];
+							if(in != (init_by[i] == (int)r) || (in && (init_cnt[i] != 1 || fini_cnt[i] != 1 || fini_by[i] != (int)r)))
+								ok = 0;
+						}
+					for(int i = 0; i < L; ++i) {
+						bool mine = (uint64_t)i >= lid_node_first && (uint64_t)i < lid_node_first + n_lps_node;
+						if(mine != (init_cnt[i] > 0))
+							ok = 0;
+					}
+					fprintf(out, "{\"e\":\"Part\",\"L\":%d,\"N\":%d,\"T\":%d,\"nid\":%d,\"first\":%d,\"cnt\":%d,\"thr\":%u,\"obs\":%d,\"tf\":[", L, N, T, k,
+					    (int)lid_node_first, (int)n_lps_node, t, ok);
+					for(unsigned r = 0; r < t; ++r)
+						fprintf(out, "%s%d", r ? "," : "", (int)tf[r]);
+					fprintf(out, "],\"te\":[");
+					for(unsigned r = 0; r < t; ++r)
+						fprintf(out, "%s%d", r ? "," : "", (int)te[r]);
 					fprintf(out, "],\"nidof\":[");
 					for(int lp = 0; lp < L; ++lp)
 						fprintf(out, "%s%d", lp ? "," : "", (int)lid_to_nid((lp_id_t)lp));
@@ -49,6 +108,7 @@ int main(int argc, char **argv)
 					for(lp_id_t i = 0; i < n_lps_node; ++i)
 						fprintf(out, "%s%d", i ? "," : "", (int)lid_to_rid(lid_node_first + i));
 					fprintf(out, "]}\n");
+					msg_queue_global_fini();
 					lp_global_fini();
 				}
 			}
